@@ -15,7 +15,8 @@ def run(ctx):
         scen[0].pop("tid", None)
     else:
         scen = ctx.gen("Gen_C07", "Gen_C07", timeout=900)
-        scen = scen[ctx.seed % 4::4] if ctx.quick else scen
+        if ctx.quick:            # a seeded random sample (a fixed stride aliases with the enumeration order of the factors)
+            scen = sorted(ctx.rng.sample(scen, min(len(scen), 180)), key=lambda s: json.dumps(s, sort_keys=True))
     traces = ctx.drive("c07", scen, timeout=3000, shards=12)
     ctx.validate("Trace_C07", traces, timeout=3000)
     ctx.rule = RULE
